@@ -182,4 +182,32 @@ theorem slide_refines {basis : Array W} {p : Pos} (hA : AnalyzeTotal) (hwf : WF 
       rw [abs_finish hq, hfin.2]
       rfl
 
+theorem apply_invalid (basis : Array W) (p : Pos) (m : Move)
+    (h : ∀ k, m.type ≠ placeCode k) (h' : ∀ d, m.type ≠ slideCode d) (hp : m.type ≠ Facts.mtPass) :
+    Pos.apply basis p m = .error (.illegal "invalid move type") ∧ decode m = .invalid := by
+  have h1 := h .flat; have h2 := h .standing; have h3 := h .capstone
+  have h4 := h' .left; have h5 := h' .right; have h6 := h' .up; have h7 := h' .down
+  simp only [placeCode, slideCode] at h1 h2 h3 h4 h5 h6 h7
+  constructor
+  · unfold Pos.apply dispatch
+    simp [h1, h2, h3, h4, h5, h6, h7, hp]
+  · unfold Spec.decode
+    simp [h1, h2, h3, h4, h5, h6, h7]
+
+/-- every non-pass move value: the model refines the rule book -/
+theorem move_refines_core {basis : Array W} {p : Pos} (hA : AnalyzeTotal) (hwf : WF basis p) (m : Move)
+    (hp : m.type ≠ Facts.mtPass) (hlim : StackLimit p m) :
+    match Pos.apply basis p m with
+    | .error _ => Spec.step (abs p) (decode m) = none
+    | .ok q => Spec.step (abs p) (decode m) = some (abs q) ∧ WF basis q := by
+  by_cases h : ∃ k, m.type = placeCode k
+  · obtain ⟨k, hk⟩ := h
+    exact place_refines hA hwf m k hk
+  by_cases h' : ∃ d, m.type = slideCode d
+  · obtain ⟨d, hd⟩ := h'
+    exact slide_refines hA hwf m d hd hlim
+  have ⟨e1, e2⟩ := apply_invalid basis p m (fun k hk => h ⟨k, hk⟩) (fun d hd => h' ⟨d, hd⟩) hp
+  rw [e1, e2]
+  rfl
+
 end Tak
